@@ -325,10 +325,11 @@ Proof.
 Qed.
 
 (* ---- reading one key ---- *)
-Lemma read_key_S : forall f d s,
-  read_key (S f) d s =
+Lemma read_key_S : forall f d kd s,
+  read_key (S f) d kd s =
+  if Nat.leb MAX_DEPTH kd then None else
   match key_atom s with
-  | DOk a r => read_key_atom (read_key f d) a r
+  | DOk a r => read_key_atom (read_key f d (S kd)) a r
   | DErr => None
   | DNo _ =>
       match dec_special (ch "(") s with
@@ -340,7 +341,7 @@ Lemma read_key_S : forall f d s,
               if Nat.leb MAX_DEPTH (S d) then None
               else
                 match items_fold (S (length r))
-                        (fun acc => do k <- read_key f (S d); ret (acc ++ [k])) [] r with
+                        (fun acc => do k <- read_key f (S d) kd; ret (acc ++ [k])) [] r with
                 | Some (ks, r') => Some (KList ks, r')
                 | None => None
                 end
@@ -350,17 +351,18 @@ Lemma read_key_S : forall f d s,
   end.
 Proof. reflexivity. Qed.
 
-Lemma read_key_atomic : forall f d a r, a <> [] -> forallb is_numset_char a = true -> delimited r ->
-  read_key (S f) d (a ++ r) = read_key_atom (read_key f d) a r.
+Lemma read_key_atomic : forall f d kd, (kd < MAX_DEPTH)%nat -> forall a r, a <> [] -> forallb is_numset_char a = true -> delimited r ->
+  read_key (S f) d kd (a ++ r) = read_key_atom (read_key f d (S kd)) a r.
 Proof.
-  intros f d a [|x r] Ha Hc Hr; [contradiction|]. destruct Hr as [_ Hx].
-  rewrite read_key_S. unfold key_atom. rewrite dec_func_app by assumption. reflexivity.
+  intros f d kd Hkd a [|x r] Ha Hc Hr; [contradiction|]. destruct Hr as [_ Hx].
+  rewrite read_key_S. replace (Nat.leb MAX_DEPTH kd) with false by (symmetry; apply Nat.leb_gt; exact Hkd).
+  unfold key_atom. rewrite dec_func_app by assumption. reflexivity.
 Qed.
 
-Definition item_ok (f d : nat) (e : eres) (k : skey) : Prop :=
+Definition item_ok (f d kd : nat) (e : eres) (k : skey) : Prop :=
   forall sg, e = Some sg ->
     item_start (flatten sg) /\
-    forall r, delimited r -> read_key (S f) d (flatten sg ++ r) = Some (k, r).
+    forall r, delimited r -> read_key (S f) d kd (flatten sg ++ r) = Some (k, r).
 
 Lemma item_start_after_sp : forall b r, item_start b -> after_sp (b ++ r).
 Proof. intros [|c b] r H; [contradiction|]. destruct H as (_ & H1 & H2). split; assumption. Qed.
@@ -374,9 +376,9 @@ Proof.
     intros rk t r s Hu Hp; unfold read_key_atom, upper; rewrite Hu; cbv zeta; rewrite Hp; reflexivity.
 Qed.
 
-Lemma item_seq : forall f d s, wf_seqset s -> item_ok f d (enc_numset s) (KSeq s).
+Lemma item_seq : forall f d kd, (kd < MAX_DEPTH)%nat -> forall s, wf_seqset s -> item_ok f d kd (enc_numset s) (KSeq s).
 Proof.
-  intros f d s [Hc Hn] sg H. unfold enc_numset in H.
+  intros f d kd Hkd s [Hc Hn] sg H. unfold enc_numset in H.
   destruct (to_string_start s Hn) as (c & t & E & Hc1).
   assert (Esg : sg = [SBytes (to_string s)]).
   { rewrite E in H. injection H as <-. rewrite E. reflexivity. }
@@ -387,22 +389,21 @@ Proof.
     pose proof (string_parse s Hc Hn) as Hp.
     pose proof (to_string_numset_chars s) as Hch.
     unfold byte, bytes in *. rewrite E in *.
-    rewrite read_key_atomic; [|discriminate|exact Hch|exact Hr].
+    rewrite read_key_atomic; [|exact Hkd|discriminate|exact Hch|exact Hr].
     apply read_key_atom_set; assumption.
 Qed.
 
 (* a key made of a name, one SP and arguments *)
-Lemma item_name : forall f d name (arg : eres) (q : P skey) k e,
-  name <> [] -> forallb is_numset_char name = true -> item_start name ->
-  (forall r', read_key_atom (read_key f d) name r' = (x_sp;; q) r') ->
+Lemma item_name : forall f d kd, (kd < MAX_DEPTH)%nat -> forall name (arg : eres) (q : P skey) k e, name <> [] -> forallb is_numset_char name = true -> item_start name ->
+  (forall r', read_key_atom (read_key f d (S kd)) name r' = (x_sp;; q) r') ->
   (forall y, arg = Some y -> item_start (flatten y) /\ forall r, delimited r -> q (flatten y ++ r) = Some (k, r)) ->
   (forall sg, e = Some sg -> exists y, arg = Some y /\ flatten sg = name ++ SP_ :: flatten y) ->
-  item_ok f d e k.
+  item_ok f d kd e k.
 Proof.
-  intros f d name arg q k e Hn Hc Hs Hk Ha He sg Hsg.
+  intros f d kd Hkd name arg q k e Hn Hc Hs Hk Ha He sg Hsg.
   destruct (He sg Hsg) as (y & Hy & ->). destruct (Ha y Hy) as [Hst Hq]. split.
   - apply item_start_app. exact Hs.
-  - intros r Hr. rewrite <- app_assoc. rewrite read_key_atomic; [|exact Hn|exact Hc|apply delimited_sp].
+  - intros r Hr. rewrite <- app_assoc. rewrite read_key_atomic; [|exact Hkd|exact Hn|exact Hc|apply delimited_sp].
     cbn [app]. rewrite Hk. unfold bind. rewrite x_sp_sp by (apply item_start_after_sp; exact Hst).
     apply Hq. exact Hr.
 Qed.
@@ -433,11 +434,11 @@ Proof.
     rewrite E in H. injection H as <-. rewrite flatten_single. apply numstart_facts. exact Hc1.
 Qed.
 
-Lemma item_uid : forall f d u, wf_uidset u ->
-  item_ok f d (slit "UID " +++ w_numarg u) (KUid (norm_uidset u)).
+Lemma item_uid : forall f d kd, (kd < MAX_DEPTH)%nat -> forall u, wf_uidset u ->
+  item_ok f d kd (slit "UID " +++ w_numarg u) (KUid (norm_uidset u)).
 Proof.
-  intros f d u Hu.
-  apply (item_name f d (s2b "UID") (w_numarg u)
+  intros f d kd Hkd u Hu.
+  apply (item_name f d kd Hkd (s2b "UID") (w_numarg u)
            (do s <- x_numset; ret (KUid (match s with NRes => [] | NSet x => x end)))).
   - discriminate.
   - reflexivity.
@@ -463,17 +464,16 @@ Proof.
 Qed.
 
 (* dates *)
-Lemma item_date : forall cfg f d name (K : Z -> skey) t,
-  client_side cfg = true ->
+Lemma item_date : forall cfg f d kd, (kd < MAX_DEPTH)%nat -> forall name (K : Z -> skey) t, client_side cfg = true ->
   name <> [] -> forallb is_numset_char name = true -> item_start name ->
-  (forall r', read_key_atom (read_key f d) name r' = (x_sp;; do x <- x_date; ret (K x)) r') ->
+  (forall r', read_key_atom (read_key f d (S kd)) name r' = (x_sp;; do x <- x_date; ret (K x)) r') ->
   wf_date t -> t_is_zero t = false ->
-  item_ok f d (lit name +++ sp +++ enc_string cfg (fmt_date (t_day t))) (K (t_day t * DAYSEC)%Z).
+  item_ok f d kd (lit name +++ sp +++ enc_string cfg (fmt_date (t_day t))) (K (t_day t * DAYSEC)%Z).
 Proof.
-  intros cfg f d name K t Hc Hn Hch Hs Hk Hw Hz.
+  intros cfg f d kd Hkd name K t Hc Hn Hch Hs Hk Hw Hz.
   assert (Hd : day_in_range (t_day t) = true).
   { destruct Hw as [Hw|Hw]; [congruence|]. unfold day_in_range. apply andb_true_iff. split; apply Z.leb_le; lia. }
-  apply (item_name f d name (enc_string cfg (fmt_date (t_day t))) (do x <- x_date; ret (K x))); try assumption.
+  apply (item_name f d kd Hkd name (enc_string cfg (fmt_date (t_day t))) (do x <- x_date; ret (K x))); try assumption.
   - intros y Hy. split; [eapply enc_string_start; eassumption|].
     intros r Hr. unfold bind. rewrite (x_date_enc cfg _ y r Hc Hd Hy). reflexivity.
   - intros sg. apply shape_lit_sp.
@@ -496,15 +496,15 @@ Proof.
   apply bytes_eqb_true_iff in E. rewrite E. exact Hx.
 Qed.
 
-Lemma item_header : forall cfg f d kv, client_side cfg = true ->
+Lemma item_header : forall cfg f d kd, (kd < MAX_DEPTH)%nat -> forall kv, client_side cfg = true ->
   short (fst kv) -> short (snd kv) ->
-  item_ok f d (w_header cfg kv) (KHeader (fst (norm_hdr kv)) (snd kv)).
+  item_ok f d kd (w_header cfg kv) (KHeader (fst (norm_hdr kv)) (snd kv)).
 Proof.
-  intros cfg f d [k v] Hc Hk Hv. cbn [fst snd] in *. unfold w_header, norm_hdr. cbn [fst snd].
+  intros cfg f d kd Hkd [k v] Hc Hk Hv. cbn [fst snd] in *. unfold w_header, norm_hdr. cbn [fst snd].
   destruct (special_hdr k) eqn:E.
   - rewrite <- (title_upper k). apply special_cases in E.
     set (name := ascii_upper k) in *. clearbody name.
-    apply (item_name f d name (enc_string cfg v) (do x <- x_astring; ret (KHeader (title name) x))).
+    apply (item_name f d kd Hkd name (enc_string cfg v) (do x <- x_astring; ret (KHeader (title name) x))).
     + destruct E as [<-|[<-|[<-|[<-|[<-|[]]]]]]; discriminate.
     + destruct E as [<-|[<-|[<-|[<-|[<-|[]]]]]]; reflexivity.
     + destruct E as [<-|[<-|[<-|[<-|[<-|[]]]]]]; cbn; repeat split; reflexivity.
@@ -512,7 +512,7 @@ Proof.
     + intros y Hy. destruct (astring_arg cfg v Hc Hv y Hy) as [H1 H2]. split; [exact H1|].
       intros r _. unfold bind. rewrite H2. reflexivity.
     + intros sg. apply shape_lit_sp.
-  - apply (item_name f d (s2b "HEADER") (enc_string cfg k +++ sp +++ enc_string cfg v)
+  - apply (item_name f d kd Hkd (s2b "HEADER") (enc_string cfg k +++ sp +++ enc_string cfg v)
              (do a <- x_astring; x_sp;; do b <- x_astring; ret (KHeader a b))).
     + discriminate.
     + reflexivity.
@@ -536,29 +536,27 @@ Proof.
       * rewrite !flatten_app, !flatten_single, <- !app_assoc. reflexivity.
 Qed.
 
-Lemma item_str : forall cfg f d (nm : string) name (K : bytes -> skey) s,
-  client_side cfg = true -> s2b nm = name ++ [SP_] ->
+Lemma item_str : forall cfg f d kd, (kd < MAX_DEPTH)%nat -> forall (nm : string) name (K : bytes -> skey) s, client_side cfg = true -> s2b nm = name ++ [SP_] ->
   name <> [] -> forallb is_numset_char name = true -> item_start name ->
-  (forall r', read_key_atom (read_key f d) name r' = (x_sp;; do x <- x_astring; ret (K x)) r') ->
+  (forall r', read_key_atom (read_key f d (S kd)) name r' = (x_sp;; do x <- x_astring; ret (K x)) r') ->
   short s ->
-  item_ok f d (slit nm +++ enc_string cfg s) (K s).
+  item_ok f d kd (slit nm +++ enc_string cfg s) (K s).
 Proof.
-  intros cfg f d nm name K s Hc Enm Hn Hch Hs Hk Hsh.
-  apply (item_name f d name (enc_string cfg s) (do x <- x_astring; ret (K x))); try assumption.
+  intros cfg f d kd Hkd nm name K s Hc Enm Hn Hch Hs Hk Hsh.
+  apply (item_name f d kd Hkd name (enc_string cfg s) (do x <- x_astring; ret (K x))); try assumption.
   - intros y Hy. destruct (astring_arg cfg s Hc Hsh y Hy) as [H1 H2]. split; [exact H1|].
     intros r _. unfold bind. rewrite H2. reflexivity.
   - intros sg. apply shape_slit. exact Enm.
 Qed.
 
-Lemma item_num : forall f d (nm : string) name (K : Z -> skey) z,
-  s2b nm = name ++ [SP_] ->
+Lemma item_num : forall f d kd, (kd < MAX_DEPTH)%nat -> forall (nm : string) name (K : Z -> skey) z, s2b nm = name ++ [SP_] ->
   name <> [] -> forallb is_numset_char name = true -> item_start name ->
-  (forall r', read_key_atom (read_key f d) name r' = (x_sp;; do x <- x_number64; ret (K x)) r') ->
+  (forall r', read_key_atom (read_key f d (S kd)) name r' = (x_sp;; do x <- x_number64; ret (K x)) r') ->
   wf_int64 z ->
-  item_ok f d (slit nm +++ enc_number64 z) (K z).
+  item_ok f d kd (slit nm +++ enc_number64 z) (K z).
 Proof.
-  intros f d nm name K z Enm Hn Hch Hs Hk Hz.
-  apply (item_name f d name (enc_number64 z) (do x <- x_number64; ret (K x))); try assumption.
+  intros f d kd Hkd nm name K z Enm Hn Hch Hs Hk Hz.
+  apply (item_name f d kd Hkd name (enc_number64 z) (do x <- x_number64; ret (K x))); try assumption.
   - intros y Hy. split.
     + unfold enc_number64 in Hy. destruct (z <? 0)%Z; [discriminate|]. injection Hy as <-.
       rewrite flatten_single. destruct (dec_first (Z.to_N z)) as (c & t & E & Hc). rewrite E.
@@ -568,27 +566,26 @@ Proof.
 Qed.
 
 (* flags *)
-Lemma item_atom : forall f d a k,
-  a <> [] -> forallb is_numset_char a = true -> item_start a ->
-  (forall r', read_key_atom (read_key f d) a r' = Some (k, r')) ->
-  item_ok f d (lit a) k.
+Lemma item_atom : forall f d kd, (kd < MAX_DEPTH)%nat -> forall a k, a <> [] -> forallb is_numset_char a = true -> item_start a ->
+  (forall r', read_key_atom (read_key f d (S kd)) a r' = Some (k, r')) ->
+  item_ok f d kd (lit a) k.
 Proof.
-  intros f d a k Hn Hc Hs Hk sg H. unfold lit in H. injection H as <-. rewrite flatten_single. split; [exact Hs|].
+  intros f d kd Hkd a k Hn Hc Hs Hk sg H. unfold lit in H. injection H as <-. rewrite flatten_single. split; [exact Hs|].
   intros r Hr. rewrite read_key_atomic by assumption. apply Hk.
 Qed.
 
-Lemma item_flag : forall f d (un : bool) fl, wf_flag fl ->
-  item_ok f d (w_flag_key un fl) ((if un then KNotFlag else KFlag) (canonical_flag fl)).
+Lemma item_flag : forall f d kd, (kd < MAX_DEPTH)%nat -> forall (un : bool) fl, wf_flag fl ->
+  item_ok f d kd (w_flag_key un fl) ((if un then KNotFlag else KFlag) (canonical_flag fl)).
 Proof.
-  intros f d un fl Hw. unfold w_flag_key, sys_flag_key.
+  intros f d kd Hkd un fl Hw. unfold w_flag_key, sys_flag_key.
   repeat match goal with
   | |- context [bytes_eqb fl ?x] =>
       let E := fresh "E" in destruct (bytes_eqb fl x) eqn:E;
       [apply bytes_eqb_true_iff in E; subst fl; destruct un; cbn [app];
-       (apply item_atom; [discriminate|reflexivity|cbn; repeat split; reflexivity|intros r'; reflexivity])|]
+       (apply item_atom; [exact Hkd|discriminate|reflexivity|cbn; repeat split; reflexivity|intros r'; reflexivity])|]
   end.
   destruct un.
-  - apply (item_name f d (s2b "UNKEYWORD") (enc_flag fl) (do x <- x_flag; ret (KNotFlag x))).
+  - apply (item_name f d kd Hkd (s2b "UNKEYWORD") (enc_flag fl) (do x <- x_flag; ret (KNotFlag x))).
     + discriminate.
     + reflexivity.
     + cbn. repeat split; reflexivity.
@@ -596,7 +593,7 @@ Proof.
     + intros y Hy. split; [eapply enc_flag_start; eassumption|].
       intros r Hr. unfold bind. rewrite (x_flag_enc fl y r Hr Hy). reflexivity.
     + intros sg. apply shape_slit. reflexivity.
-  - apply (item_name f d (s2b "KEYWORD") (enc_flag fl) (do x <- x_flag; ret (KFlag x))).
+  - apply (item_name f d kd Hkd (s2b "KEYWORD") (enc_flag fl) (do x <- x_flag; ret (KFlag x))).
     + discriminate.
     + reflexivity.
     + cbn. repeat split; reflexivity.
@@ -704,9 +701,9 @@ Lemma pairs'_cons : forall l, exists a t, pairs' l = a :: t.
 Proof. intros [|a l]; eexists _, _; reflexivity. Qed.
 
 (* ---- every item is read back as its key ---- *)
-Definition reads (cfg : enc_cfg) (f d : nat) (n : ccrit) : Prop :=
+Definition reads (cfg : enc_cfg) (f d kd : nat) (n : ccrit) : Prop :=
   forall sg r, w_key cfg n = Some sg -> delimited r ->
-    read_key f d (flatten sg ++ r) = Some (KList (keys_sent n), r).
+    read_key f d kd (flatten sg ++ r) = Some (KList (keys_sent n), r).
 
 Lemma w_key_start : forall cfg n y, w_key cfg n = Some y -> item_start (flatten y).
 Proof.
@@ -715,11 +712,11 @@ Proof.
   rewrite flatten_app, flatten_single. cbn. repeat split; reflexivity.
 Qed.
 
-Lemma item_not : forall cfg f d n, reads cfg f d n ->
-  item_ok f d (slit "NOT " +++ w_key cfg n) (KNot (KList (keys_sent n))).
+Lemma item_not : forall cfg f d kd, (kd < MAX_DEPTH)%nat -> forall n, reads cfg f d (S kd) n ->
+  item_ok f d kd (slit "NOT " +++ w_key cfg n) (KNot (KList (keys_sent n))).
 Proof.
-  intros cfg f d n Hn.
-  apply (item_name f d (s2b "NOT") (w_key cfg n) (do k <- read_key f d; ret (KNot k))).
+  intros cfg f d kd Hkd n Hn.
+  apply (item_name f d kd Hkd (s2b "NOT") (w_key cfg n) (do k <- read_key f d (S kd); ret (KNot k))).
   - discriminate.
   - reflexivity.
   - cbn. repeat split; reflexivity.
@@ -729,13 +726,13 @@ Proof.
   - intros sg. apply shape_slit. reflexivity.
 Qed.
 
-Lemma item_or : forall cfg f d a b, reads cfg f d a -> reads cfg f d b ->
-  item_ok f d (slit "OR " +++ w_key cfg a +++ sp +++ w_key cfg b)
+Lemma item_or : forall cfg f d kd, (kd < MAX_DEPTH)%nat -> forall a b, reads cfg f d (S kd) a -> reads cfg f d (S kd) b ->
+  item_ok f d kd (slit "OR " +++ w_key cfg a +++ sp +++ w_key cfg b)
           (KOr (KList (keys_sent a)) (KList (keys_sent b))).
 Proof.
-  intros cfg f d a b Ha Hb.
-  apply (item_name f d (s2b "OR") (w_key cfg a +++ sp +++ w_key cfg b)
-           (do x <- read_key f d; x_sp;; do y <- read_key f d; ret (KOr x y))).
+  intros cfg f d kd Hkd a b Ha Hb.
+  apply (item_name f d kd Hkd (s2b "OR") (w_key cfg a +++ sp +++ w_key cfg b)
+           (do x <- read_key f d (S kd); x_sp;; do y <- read_key f d (S kd); ret (KOr x y))).
   - discriminate.
   - reflexivity.
   - cbn. repeat split; reflexivity.
@@ -753,71 +750,70 @@ Qed.
 Ltac forall_list := repeat first [apply Forall_nil | apply Forall_cons].
 Ltac name_facts := first [assumption | discriminate | reflexivity | (cbn; repeat split; reflexivity) | (intros; reflexivity)].
 
-Lemma date_pairs_ok1 : forall cfg f d since before, client_side cfg = true -> wf_date since -> wf_date before ->
-  Forall (fun p => item_ok f d (fst p) (snd p))
+Lemma date_pairs_ok1 : forall cfg f d kd, (kd < MAX_DEPTH)%nat -> forall since before, client_side cfg = true -> wf_date since -> wf_date before ->
+  Forall (fun p => item_ok f d kd (fst p) (snd p))
          (date_pairs cfg "SINCE" "BEFORE" "ON" since before KSince KBefore KOn).
 Proof.
-  intros cfg f d since before Hc H1 H2. unfold date_pairs.
+  intros cfg f d kd Hkd since before Hc H1 H2. unfold date_pairs.
   destruct (t_is_zero since) eqn:E1; destruct (t_is_zero before) eqn:E2; cbn [negb andb app];
     try destruct (t_day before =? t_day since + 1)%Z; forall_list; cbn [fst snd];
     apply item_date; name_facts.
 Qed.
-Lemma date_pairs_ok2 : forall cfg f d since before, client_side cfg = true -> wf_date since -> wf_date before ->
-  Forall (fun p => item_ok f d (fst p) (snd p))
+Lemma date_pairs_ok2 : forall cfg f d kd, (kd < MAX_DEPTH)%nat -> forall since before, client_side cfg = true -> wf_date since -> wf_date before ->
+  Forall (fun p => item_ok f d kd (fst p) (snd p))
          (date_pairs cfg "SENTSINCE" "SENTBEFORE" "SENTON" since before KSentSince KSentBefore KSentOn).
 Proof.
-  intros cfg f d since before Hc H1 H2. unfold date_pairs.
+  intros cfg f d kd Hkd since before Hc H1 H2. unfold date_pairs.
   destruct (t_is_zero since) eqn:E1; destruct (t_is_zero before) eqn:E2; cbn [negb andb app];
     try destruct (t_day before =? t_day since + 1)%Z; forall_list; cbn [fst snd];
     apply item_date; name_facts.
 Qed.
 
-Lemma Forall_map_ok : forall A (g : A -> eres * skey) (Q : A -> Prop) f d l,
-  Forall Q l -> (forall x, Q x -> item_ok f d (fst (g x)) (snd (g x))) ->
-  Forall (fun p => item_ok f d (fst p) (snd p)) (map g l).
+Lemma Forall_map_ok : forall A (g : A -> eres * skey) (Q : A -> Prop) f d kd l,
+  Forall Q l -> (forall x, Q x -> item_ok f d kd (fst (g x)) (snd (g x))) ->
+  Forall (fun p => item_ok f d kd (fst p) (snd p)) (map g l).
 Proof.
-  intros A g Q f d l HF H. apply Forall_forall. intros p Hp. apply in_map_iff in Hp.
+  intros A g Q f d kd l HF H. apply Forall_forall. intros p Hp. apply in_map_iff in Hp.
   destruct Hp as (x & <- & Hx). apply H. rewrite Forall_forall in HF. apply HF. exact Hx.
 Qed.
 
-Lemma pairs_ok : forall cfg f d seqs uids since before ssince sbefore hdr body text flag notflag larger smaller nots ors,
-  client_side cfg = true ->
+Lemma pairs_ok : forall cfg f d kd, (kd < MAX_DEPTH)%nat -> forall seqs uids since before ssince sbefore hdr body text flag notflag larger smaller nots ors, client_side cfg = true ->
   Forall wf_seqset seqs -> Forall wf_uidset uids ->
   wf_date since -> wf_date before -> wf_date ssince -> wf_date sbefore ->
   Forall (fun kv => short (fst kv) /\ short (snd kv)) hdr -> Forall short body -> Forall short text ->
   Forall wf_flag flag -> Forall wf_flag notflag ->
   wf_int64 larger -> wf_int64 smaller ->
-  Forall (reads cfg f d) nots -> Forall (fun p => reads cfg f d (fst p) /\ reads cfg f d (snd p)) ors ->
-  Forall (fun p => item_ok f d (fst p) (snd p))
+  Forall (reads cfg f d (S kd)) nots -> Forall (fun p => reads cfg f d (S kd) (fst p) /\ reads cfg f d (S kd) (snd p)) ors ->
+  Forall (fun p => item_ok f d kd (fst p) (snd p))
          (pairs cfg seqs uids since before ssince sbefore hdr body text flag notflag larger smaller nots ors).
 Proof.
-  intros cfg f d seqs uids since before ssince sbefore hdr body text flag notflag larger smaller nots ors
+  intros cfg f d kd Hkd seqs uids since before ssince sbefore hdr body text flag notflag larger smaller nots ors
          Hc Hseq Huid Hd1 Hd2 Hd3 Hd4 Hh Hb Ht Hf Hnf Hla Hsm Hn Ho.
   unfold pairs. repeat (apply Forall_app; split).
-  - eapply Forall_map_ok; [exact Hseq|]. intros s Hs. cbn [fst snd]. apply item_seq. exact Hs.
-  - eapply Forall_map_ok; [exact Huid|]. intros u Hu. cbn [fst snd]. apply item_uid. exact Hu.
+  - eapply Forall_map_ok; [exact Hseq|]. intros s Hs. cbn [fst snd]. apply item_seq; assumption.
+  - eapply Forall_map_ok; [exact Huid|]. intros u Hu. cbn [fst snd]. apply item_uid; assumption.
   - apply date_pairs_ok1; assumption.
   - apply date_pairs_ok2; assumption.
   - eapply Forall_map_ok; [exact Hh|]. intros kv [H1 H2]. cbn [fst snd]. apply item_header; assumption.
   - eapply Forall_map_ok; [exact Hb|]. intros s Hs. cbn [fst snd].
-    apply (item_str cfg f d "BODY " (s2b "BODY") KBody); name_facts.
+    apply (item_str cfg f d kd Hkd "BODY " (s2b "BODY") KBody); name_facts.
   - eapply Forall_map_ok; [exact Ht|]. intros s Hs. cbn [fst snd].
-    apply (item_str cfg f d "TEXT " (s2b "TEXT") KText); name_facts.
-  - eapply Forall_map_ok; [exact Hf|]. intros s Hs. cbn [fst snd]. apply (item_flag f d false). exact Hs.
-  - eapply Forall_map_ok; [exact Hnf|]. intros s Hs. cbn [fst snd]. apply (item_flag f d true). exact Hs.
+    apply (item_str cfg f d kd Hkd "TEXT " (s2b "TEXT") KText); name_facts.
+  - eapply Forall_map_ok; [exact Hf|]. intros s Hs. cbn [fst snd]. apply (item_flag f d kd Hkd false). exact Hs.
+  - eapply Forall_map_ok; [exact Hnf|]. intros s Hs. cbn [fst snd]. apply (item_flag f d kd Hkd true). exact Hs.
   - destruct (0 <? larger)%Z; forall_list. cbn [fst snd].
-    apply (item_num f d "LARGER " (s2b "LARGER") KLarger); name_facts.
+    apply (item_num f d kd Hkd "LARGER " (s2b "LARGER") KLarger); name_facts.
   - destruct (0 <? smaller)%Z; forall_list. cbn [fst snd].
-    apply (item_num f d "SMALLER " (s2b "SMALLER") KSmaller); name_facts.
-  - eapply Forall_map_ok; [exact Hn|]. intros n Hr. cbn [fst snd]. apply item_not. exact Hr.
+    apply (item_num f d kd Hkd "SMALLER " (s2b "SMALLER") KSmaller); name_facts.
+  - eapply Forall_map_ok; [exact Hn|]. intros n Hr. cbn [fst snd]. apply item_not; assumption.
   - eapply Forall_map_ok; [exact Ho|]. intros p [H1 H2]. cbn [fst snd]. apply item_or; assumption.
 Qed.
 
-Lemma pairs'_ok : forall f d l, Forall (fun p => item_ok f d (fst p) (snd p)) l ->
-  Forall (fun p => item_ok f d (fst p) (snd p)) (pairs' l).
+Lemma pairs'_ok : forall f d kd, (kd < MAX_DEPTH)%nat -> forall l, Forall (fun p => item_ok f d kd (fst p) (snd p)) l ->
+  Forall (fun p => item_ok f d kd (fst p) (snd p)) (pairs' l).
 Proof.
-  intros f d [|a l] H; [|exact H]. forall_list. cbn [fst snd].
-  apply (item_atom f d (s2b "ALL") KAll); name_facts.
+  intros f d kd Hkd [|a l] H; [|exact H]. forall_list. cbn [fst snd].
+  apply (item_atom f d kd Hkd (s2b "ALL") KAll); name_facts.
 Qed.
 
 (* ---- depth ---- *)
@@ -847,24 +843,25 @@ Proof.
   rewrite IH, <- app_assoc. reflexivity.
 Qed.
 
-Lemma read_key_w_key_B : forall cfg, client_side cfg = true -> forall c segs rest fuel d,
+Lemma read_key_w_key_B : forall cfg, client_side cfg = true -> forall c segs rest fuel d kd,
   wf_crit c ->
-  (d + crit_depth c < MAX_DEPTH)%nat -> (2 * crit_depth c <= fuel)%nat -> delimited rest ->
+  (d + crit_depth c < MAX_DEPTH)%nat -> (kd + crit_depth c < MAX_DEPTH)%nat ->
+  (2 * crit_depth c <= fuel)%nat -> delimited rest ->
   w_key cfg c = Some segs ->
-  read_key fuel d (flatten segs ++ rest) = Some (KList (keys_sent c), rest).
+  read_key fuel d kd (flatten segs ++ rest) = Some (KList (keys_sent c), rest).
 Proof.
   intros cfg Hc c. induction c using ccrit_ind'.
-  intros segs rest fuel d Hw Hd Hf Hr Hk.
+  intros segs rest fuel d kd Hw Hd Hkd Hf Hr Hk.
   rewrite wf_crit_eq in Hw.
   destruct Hw as (Hseq & Huid & Hd1 & Hd2 & Hd3 & Hd4 & Hh & Hb & Ht & Hfl & Hnf & Hla & Hsm & Hm & Hn & Ho).
   subst modseq. apply wf_nots_forall in Hn. apply wf_ors_forall in Ho.
-  rewrite crit_depth_eq in Hd, Hf.
+  rewrite crit_depth_eq in Hd, Hkd, Hf.
   destruct fuel as [|[|f]]; [lia|lia|].
   rewrite w_key_eq, <- pairs_fst, pairs'_fst in Hk.
   rewrite keys_sent_eq, <- (pairs_snd cfg), pairs'_snd.
-  assert (Hok : Forall (fun p => item_ok f (S d) (fst p) (snd p))
+  assert (Hok : Forall (fun p => item_ok f (S d) kd (fst p) (snd p))
                   (pairs' (pairs cfg seqs uids since before ssince sbefore hdr body text flag notflag larger smaller nots ors))).
-  { apply pairs'_ok. apply pairs_ok; try assumption.
+  { apply pairs'_ok; [lia|]. apply pairs_ok; try assumption; [lia| |].
     - rewrite Forall_forall in *. intros n Hin sg r Hsg Hrr.
       pose proof (maxd_nots_in _ _ Hin).
       apply (H n Hin); auto; lia.
@@ -882,18 +879,20 @@ Proof.
   assert (Hst : forall x, In x (a :: l) -> forall sg, fst x = Some sg -> item_start (flatten sg)).
   { intros x Hx sg Hsg. rewrite Forall_forall in Hok. apply (Hok x Hx sg Hsg). }
   assert (Hit : forall x, In x (a :: l) -> forall sg st r, fst x = Some sg -> delimited r ->
-            (fun acc => do k <- read_key (S f) (S d); ret (acc ++ [k])) st (flatten sg ++ r) =
+            (fun acc => do k <- read_key (S f) (S d) kd; ret (acc ++ [k])) st (flatten sg ++ r) =
             Some ((fun acc x => acc ++ [snd x]) st x, r)).
   { intros x Hx sg st r Hsg Hrr. rewrite Forall_forall in Hok. destruct (Hok x Hx sg Hsg) as [_ Hrd].
     unfold bind. rewrite (Hrd r Hrr). reflexivity. }
   pose proof (join_sp_start _ fst l a j Hst Hj) as Hs.
-  rewrite read_key_S. unfold key_atom. rewrite dec_func_no by reflexivity.
+  rewrite read_key_S.
+  replace (Nat.leb MAX_DEPTH kd) with false by (symmetry; apply Nat.leb_gt; lia).
+  unfold key_atom. rewrite dec_func_no by reflexivity.
   rewrite dec_special_hit.
   assert (Hm : dec_special (ch ")") (flatten j ++ ch ")" :: rest) = DNo (flatten j ++ ch ")" :: rest)).
   { destruct (flatten j) as [|c t]; [contradiction|]. destruct Hs as [Hs _]. cbn [app].
     apply dec_special_miss. exact Hs. }
   assert (HL : Nat.leb MAX_DEPTH (S d) = false) by (apply Nat.leb_gt; lia).
-  pose proof (items_fold_join _ _ (fun acc => do k <- read_key (S f) (S d); ret (acc ++ [k])) fst
+  pose proof (items_fold_join _ _ (fun acc => do k <- read_key (S f) (S d) kd; ret (acc ++ [k])) fst
                 (fun acc x => acc ++ [snd x]) l a [] j rest
                 (S (length (flatten j ++ ch ")" :: rest))) Hit Hst Hj) as HF.
   unfold byte, bytes in *. rewrite Hm, HL, HF.
@@ -1063,8 +1062,8 @@ Qed.
 (* ---- handleSearch, cut in three ---- *)
 Definition search_tail (uid : bool) (o : search_opts) (a2 : bytes) : P (list bcall) :=
   do k0 <- (fun s => match a2 with
-                     | [] => read_key (S (length s)) 0 s
-                     | _ => read_key_atom (read_key (S (length s)) 0) a2 s
+                     | [] => read_key (S (length s)) 0 0 s
+                     | _ => read_key_atom (read_key (S (length s)) 0 1) a2 s
                      end);
   do ks <- (fun s => keys_loop (S (length s)) [k0] s);
   x_crlf;;
@@ -1099,7 +1098,7 @@ Lemma search_tail_ok : forall c uid o cr k, wf_crit cr -> (crit_depth cr < MAX_D
   search_tail uid o [] (flatten k ++ CRLF_) = Some ([BSearch uid (norm_crit cr) (norm_sopts o)], []).
 Proof.
   intros c uid o cr k Hw Hd Hk. unfold search_tail, bind.
-  rewrite (read_key_w_key_B (ecfg c) eq_refl cr k CRLF_ _ 0 Hw); [| lia | | apply delimited_crlf | exact Hk].
+  rewrite (read_key_w_key_B (ecfg c) eq_refl cr k CRLF_ _ 0 0 Hw); [| lia | lia | | apply delimited_crlf | exact Hk].
   - change (keys_loop (S (length CRLF_)) [KList (keys_sent cr)] CRLF_)
       with (Some ([KList (keys_sent cr)], CRLF_)).
     change (x_crlf CRLF_) with (Some (tt, @nil ascii)). unfold ret.
@@ -1358,14 +1357,23 @@ Qed.
 (* ================= the four statements ================= *)
 
 (* stage 1 (bytes): readSearchKey on what writeSearchKey wrote returns the list of keys sent *)
-Lemma read_key_w_key : forall cfg c segs rest fuel d,
+Lemma read_key_w_key : forall cfg c segs rest fuel d kd,
   client_side cfg = true -> wf_crit c ->
-  (d + crit_depth c < MAX_DEPTH)%nat -> (2 * crit_depth c <= fuel)%nat -> delimited rest ->
+  (d + crit_depth c < MAX_DEPTH)%nat -> (kd + crit_depth c < MAX_DEPTH)%nat ->
+  (2 * crit_depth c <= fuel)%nat -> delimited rest ->
   w_key cfg c = Some segs ->
-  read_key fuel d (flatten segs ++ rest) = Some (KList (keys_sent c), rest).
+  read_key fuel d kd (flatten segs ++ rest) = Some (KList (keys_sent c), rest).
 Proof.
-  intros cfg c segs rest fuel d Hc Hw Hd Hf Hr Hk.
-  exact (read_key_w_key_B cfg Hc c segs rest fuel d Hw Hd Hf Hr Hk).
+  intros cfg c segs rest fuel d kd Hc Hw Hd Hkd Hf Hr Hk.
+  exact (read_key_w_key_B cfg Hc c segs rest fuel d kd Hw Hd Hkd Hf Hr Hk).
+Qed.
+
+(* the complement: a key that is the operand of maxSearchKeyDepth or more NOT / OR keys is
+   refused whatever it is, before a byte of it is read *)
+Lemma read_key_too_deep : forall fuel d kd s, (MAX_DEPTH <= kd)%nat -> read_key fuel d kd s = None.
+Proof.
+  intros [|f] d kd s H; [reflexivity|]. rewrite read_key_S.
+  replace (Nat.leb MAX_DEPTH kd) with true by (symmetry; apply Nat.leb_le; exact H). reflexivity.
 Qed.
 
 (* stage 2 (no bytes): folding the keys sent into an empty criteria rebuilds the caller's tree *)
@@ -1387,4 +1395,30 @@ Lemma search_encodable : forall c order tag uid cr o,
   Forall (fun body => w_line tag body <> None) (w_req c order (QSearch uid cr o)).
 Proof.
   exact search_encodable_E.
+Qed.
+
+(* n NOT keys in front of any text, "NOT NOT ... NOT " ++ s, as an unauthenticated peer may send
+   them: refused as soon as the chain reaches the bound, whatever follows and whatever the fuel *)
+Fixpoint not_chain (n : nat) (s : bytes) : bytes :=
+  match n with O => s | S m => s2b "NOT " ++ not_chain m s end.
+
+Lemma read_key_not_chain : forall n fuel d kd s,
+  (MAX_DEPTH <= kd + n)%nat -> read_key fuel d kd (not_chain n s) = None.
+Proof.
+  induction n as [|n IH]; intros fuel d kd s H.
+  - apply read_key_too_deep. lia.
+  - destruct fuel as [|f]; [reflexivity|].
+    destruct (Nat.leb MAX_DEPTH kd) eqn:E.
+    + apply read_key_too_deep. apply Nat.leb_le. exact E.
+    + apply Nat.leb_gt in E. cbn [not_chain].
+      change (s2b "NOT " ++ not_chain n s) with (s2b "NOT" ++ SP_ :: not_chain n s).
+      rewrite read_key_atomic; [|exact E|discriminate|reflexivity|apply delimited_sp].
+      change (read_key_atom (read_key f d (S kd)) (s2b "NOT") (SP_ :: not_chain n s))
+        with ((x_sp;; do k <- read_key f d (S kd); ret (KNot k)) (SP_ :: not_chain n s)).
+      unfold bind. destruct (x_sp (SP_ :: not_chain n s)) as [[[] r]|] eqn:Ex; [|reflexivity].
+      assert (r = not_chain n s).
+      { unfold x_sp, expect in Ex. cbn [dec_sp] in Ex. rewrite beqb_rfl in Ex.
+        destruct (not_chain n s) as [|c t]; [discriminate|].
+        destruct (beqb c CR_ || beqb c LF_); [discriminate|]. injection Ex as <-. reflexivity. }
+      subst r. rewrite IH by lia. reflexivity.
 Qed.
